@@ -39,6 +39,10 @@ pub fn install_quiet_panic_hook() {
         } else {
             String::new()
         };
+        if std::thread::current().name() == Some("main") {
+            // a panic of the harness itself, not of a library call in its own thread
+            eprintln!("HARNESS PANIC: {} at {}", msg, loc);
+        }
         if let Ok(mut g) = LAST_PANIC.lock() {
             *g = format!("{} at {}", msg.chars().take(200).collect::<String>(), loc);
         }
